@@ -873,17 +873,65 @@ fn mode_ising(a: &Args) {
 
 type Generic = DefaultQmc<SplitMix64>;
 
+/// one registered interaction: variables, ALL diagonal entries as handed to the constructor, and whether an
+/// `_and_offset` constructor was used
+#[derive(Clone, Debug)]
+struct Term {
+    vars: Vec<usize>,
+    diag: Vec<f64>,
+    with_offset: bool,
+}
+
+fn min_of(d: &[f64]) -> f64 {
+    d.iter().cloned().fold(f64::MAX, f64::min)
+}
+
+/// Documented offset of a generic sampler (read off the unchanged `make_*_interaction_and_offset`:
+/// `self.offset -= min_diag`, the matrix is stored with `min_diag` subtracted from its diagonal; the plain
+/// constructors record nothing): `get_offset() = - sum over _and_offset terms of their smallest diagonal entry`.
+fn doc_generic_offset(terms: &[Term]) -> f64 {
+    -terms.iter().filter(|t| t.with_offset).map(|t| min_of(&t.diag)).sum::<f64>()
+}
+
+/// the stored matrices must be the registered ones minus the documented shift on the diagonal
+fn check_stored(q: &Generic, terms: &[Term]) -> Result<(), String> {
+    if q.get_bonds().len() != terms.len() {
+        return Err(format!("{} interactions stored for {} registered", q.get_bonds().len(), terms.len()));
+    }
+    for (k, t) in terms.iter().enumerate() {
+        let n = t.vars.len();
+        let shift = if t.with_offset { min_of(&t.diag) } else { 0.0 };
+        for idx in 0..(1usize << n) {
+            let bits: Vec<bool> = (0..n).map(|b| (idx >> (n - 1 - b)) & 1 == 1).collect();
+            let got = q.get_bonds()[k].at(&bits, &bits).map_err(|e| format!("term {}: at() failed: {}", k, e))?;
+            let want = t.diag[idx] - shift;
+            if got != want {
+                return Err(format!(
+                    "term {} (diagonal {:?}, {}): stored diagonal entry {} is {} but the documented shifted value is {}",
+                    k,
+                    t.diag,
+                    if t.with_offset { "_and_offset" } else { "plain" },
+                    idx,
+                    got,
+                    want
+                ));
+            }
+        }
+    }
+    Ok(())
+}
+
 /// A generic sampler on a chain: per edge a diagonal interaction `[c-j, c+j, c+j, c-j]` registered with
-/// `make_diagonal_interaction_and_offset` (or the full-matrix variant), so the recorded offset is
-/// `-Σ(c-|j|)`: negative for `c > |j|`, positive for `c < |j|`; plus a constant single-site term (no offset).
-/// `shift` moves every `c`, which changes the offset but not the stored (shifted) matrices.
-fn gen_generic(g: &mut SplitMix64, nvars: usize, shift: f64, seed: u64) -> (Generic, Vec<(f64, f64)>) {
+/// `make_diagonal_interaction_and_offset` (or the full-matrix variant), so the documented offset is
+/// `-Σ(c-|j|)`: negative for `c > |j|` (all diagonal entries strictly positive), positive for `c < |j|`; sometimes a
+/// single-site `[a, 0, 0, b]` with offset; plus a constant single-site term (no offset).
+/// `shift` moves every diagonal, which changes the offset but not the stored (shifted) matrices.
+fn gen_generic(g: &mut SplitMix64, nvars: usize, shift: f64, seed: u64) -> (Generic, Vec<Term>) {
     let mut q = Generic::new_with_state(nvars, SplitMix64::new(seed), vec![false; nvars], false);
-    let mut spec = vec![];
+    let mut terms = vec![];
     for v in 0..nvars - 1 {
         let j = *g.pick(&[-1.0, -0.5, 0.5, 1.0, 1.5]);
         let c = g.dyadic(-3, 3, 4);
-        spec.push((j, c));
         let (lo, hi) = (c + shift - j, c + shift + j);
         if v % 2 == 0 {
             q.make_diagonal_interaction_and_offset(vec![lo, hi, hi, lo], vec![v, v + 1]).unwrap();
@@ -894,12 +942,19 @@ fn gen_generic(g: &mut SplitMix64, nvars: usize, shift: f64, seed: u64) -> (Gene
             }
             q.make_interaction_and_offset(m, vec![v, v + 1]).unwrap();
         }
+        terms.push(Term { vars: vec![v, v + 1], diag: vec![lo, hi, hi, lo], with_offset: true });
+    }
+    if g.coin() {
+        let (a, b) = (g.range(1, 8) as f64 / 4.0 + shift, g.range(1, 8) as f64 / 4.0 + shift);
+        q.make_interaction_and_offset(vec![a, 0.0, 0.0, b], vec![0]).unwrap();
+        terms.push(Term { vars: vec![0], diag: vec![a, b], with_offset: true });
     }
     let tr = g.range(1, 6) as f64 / 4.0;
     for v in 0..nvars {
         q.make_interaction(vec![tr, tr, tr, tr], vec![v]).unwrap();
+        terms.push(Term { vars: vec![v], diag: vec![tr, tr], with_offset: false });
     }
-    (q, spec)
+    (q, terms)
 }
 
 /// manual loop on a clone: n after every step, state after every step
@@ -915,77 +970,100 @@ fn single_steps(q: &mut Generic, t: usize, beta: f64) -> (Vec<usize>, Vec<Vec<bo
 }
 
 fn mode_generic(a: &Args) {
-    let mut g = SplitMix64::new(a.seed ^ 0x6e17);
+    let mut gen = SplitMix64::new(a.seed ^ 0x6e17);
+    let g = &mut gen;
     let cases = if a.thorough { 240 } else { 36 };
     let (mut npos, mut nneg) = (0, 0);
     // (a) timesteps / timesteps_sample / timesteps_measure on a generic sampler with an offset
     for ci in 0..cases {
-        let beta = *g.pick(&[0.5, 1.0, 2.0, 4.0]);
-        let t = g.range(1, 60) as usize;
-        let f = g.range(1, 9) as usize;
-        let mut q0: Generic = if ci % 3 == 2 {
-            // obtained by conversion from an Ising sampler (with and without a longitudinal field)
-            let nvars = g.range(2, 5) as usize;
-            let (edges, tr, cutoff) = gen_ising(&mut g, nvars);
-            let h = if ci % 2 == 0 { 0.0 } else { *g.pick(&[-0.75, 0.5, 1.25]) };
-            Ising::new_with_rng(edges, tr, h, cutoff, SplitMix64::new(g.next()), None).into_qmc()
-        } else {
-            let nvars = g.range(2, 5) as usize;
-            // force the sign of the offset in turn
-            let shift = if ci % 2 == 0 { 3.0 } else { -3.0 };
-            let seed = g.next();
-            gen_generic(&mut g, nvars, shift, seed).0
-        };
-        q0.timesteps(g.range(0, 15) as usize, beta);
-        let off = q0.get_offset();
-        if off > 0.0 {
-            npos += 1
-        } else if off < 0.0 {
-            nneg += 1
-        }
-        let (ns, states) = single_steps(&mut q0.clone(), t, beta);
-        let doc = |freq: usize| -> Option<f64> {
-            let k = t / freq;
-            if k == 0 {
-                None
+        let label = format!("genericm case {} {}", a.seed, ci);
+        let res = catch(|| {
+            let beta = *g.pick(&[0.5, 1.0, 2.0, 4.0]);
+            let t = g.range(1, 60) as usize;
+            let f = g.range(1, 9) as usize;
+            // `off`: the DOCUMENTED offset, computed from what the harness registered, never from get_offset()
+            let (mut q0, off, stored): (Generic, f64, Result<(), String>) = if ci % 3 == 2 {
+                // obtained by conversion from an Ising sampler (with and without a longitudinal field, both signs):
+                // into_qmc registers [-J, J, J, -J] per edge and [-h, 0, 0, h] per site with offset => sum|J| + N|h|
+                let nvars = g.range(2, 5) as usize;
+                let (edges, tr, cutoff) = gen_ising(g, nvars);
+                let h = if ci % 2 == 0 { 0.0 } else { *g.pick(&[-0.75, 0.5, 1.25, -0.25]) };
+                let off = edges.iter().map(|(_, j)| j.abs()).sum::<f64>() + nvars as f64 * h.abs();
+                (Ising::new_with_rng(edges, tr, h, cutoff, SplitMix64::new(g.next()), None).into_qmc(), off, Ok(()))
             } else {
-                let mean = (1..=k).map(|i| ns[i * freq - 1] as f64).sum::<f64>() / k as f64;
-                Some(-(mean / beta) + off)
-            }
-        };
-        for variant in ["steps", "sample", "measure"] {
-            let mut q = q0.clone();
-            let (freq, count, e, states_ok) = match variant {
-                "steps" => (1, t, q.timesteps(t, beta), true),
-                "sample" => {
-                    let (st, e) = q.timesteps_sample(t, beta, Some(f));
-                    let ok = st.len() == t / f && st.iter().enumerate().all(|(k, s)| *s == states[(k + 1) * f - 1]);
-                    (f, st.len(), e, ok)
-                }
-                _ => {
-                    let (c, e) = q.timesteps_measure(t, beta, 0usize, |c, _| c + 1, Some(f));
-                    (f, c, e, true)
+                let nvars = g.range(2, 5) as usize;
+                // force the sign of the offset in turn
+                let shift = if ci % 2 == 0 { 3.0 } else { -3.0 };
+                let seed = g.next();
+                let (q, terms) = gen_generic(g, nvars, shift, seed);
+                let st = check_stored(&q, &terms);
+                (q, doc_generic_offset(&terms), st)
+            };
+            q0.timesteps(g.range(0, 15) as usize, beta);
+            let got_off = q0.get_offset();
+            let (ns, states) = single_steps(&mut q0.clone(), t, beta);
+            let doc = |freq: usize| -> Option<f64> {
+                let k = t / freq;
+                if k == 0 {
+                    None
+                } else {
+                    let mean = (1..=k).map(|i| ns[i * freq - 1] as f64).sum::<f64>() / k as f64;
+                    Some(-(mean / beta) + off)
                 }
             };
-            let mut oracle = Ok(());
-            if !states_ok {
-                oracle = Err(format!("generic sampler ({}): sampled states are not those after steps f,2f,..", variant));
+            for variant in ["steps", "sample", "measure"] {
+                let mut q = q0.clone();
+                let (freq, count, e, states_ok) = match variant {
+                    "steps" => (1, t, q.timesteps(t, beta), true),
+                    "sample" => {
+                        let (st, e) = q.timesteps_sample(t, beta, Some(f));
+                        let ok = st.len() == t / f && st.iter().enumerate().all(|(k, s)| *s == states[(k + 1) * f - 1]);
+                        (f, st.len(), e, ok)
+                    }
+                    _ => {
+                        let (c, e) = q.timesteps_measure(t, beta, 0usize, |c, _| c + 1, Some(f));
+                        (f, c, e, true)
+                    }
+                };
+                let mut oracle = Ok(());
+                if !states_ok {
+                    oracle = Err(format!("generic sampler ({}): sampled states are not those after steps f,2f,..", variant));
+                }
+                if let Some(d) = doc(freq) {
+                    if !close(e, d) {
+                        oracle = Err(format!(
+                            "generic sampler ({}), documented offset {} (get_offset() says {}): returned energy {} but -<n>/beta + offset over the sampled steps is {}",
+                            variant, off, got_off, e, d
+                        ));
+                    }
+                }
+                if !close(got_off, off) {
+                    oracle = Err(format!("generic sampler: get_offset() = {} but the registered interactions give {}", got_off, off));
+                }
+                if let Err(m) = &stored {
+                    oracle = Err(format!("generic sampler: {}", m));
+                }
+                let input = format!("genericm {} {} {} {} {} {}", variant, t, freq, rat(beta), rat(off), list(&ns));
+                emit(t / freq >= 1 && off != 0.0, &input, &format!("{} {}", count, fl(e)), Some(oracle));
             }
-            if let Some(d) = doc(freq) {
-                if !close(e, d) {
-                    oracle = Err(format!(
-                        "generic sampler ({}), offset {}: returned energy {} but -<n>/beta + get_offset() over the sampled steps is {}",
-                        variant, off, e, d
-                    ));
+            off
+        });
+        match res {
+            Ok(off) => {
+                if off > 0.0 {
+                    npos += 1
+                } else if off < 0.0 {
+                    nneg += 1
                 }
             }
-            let input = format!("genericm {} {} {} {} {} {}", variant, t, freq, rat(beta), rat(off), list(&ns));
-            emit(t / freq >= 1 && off != 0.0, &input, &format!("{} {}", count, fl(e)), Some(oracle));
+            Err(p) => emit(false, &label, "panic", Some(Err(format!("generic sampler scenario panicked: {}", p)))),
         }
     }
     // (b) the tempering drivers over generic replicas whose offsets differ from slot to slot
     let tcases = if a.thorough { 120 } else { 24 };
     for ci in 0..tcases {
+        let label = format!("generict case {} {}", a.seed, ci);
+        let res = catch(|| {
         let nvars = g.range(2, 4) as usize;
         let nrep = g.range(2, 4) as usize;
         let t = g.range(1, 40) as usize;
@@ -997,20 +1075,34 @@ fn mode_generic(a: &Args) {
         // identical stored matrices (so the graphs are swappable and `ham_eq` holds)
         let gs = g.clone();
         let mut betas = vec![];
+        // documented offsets (from the registered matrices) and get_offset() as captured at construction
         let mut offs0: Vec<f64> = vec![];
+        let mut caps: Vec<f64> = vec![];
+        let mut setup: Result<(), String> = Ok(());
         for i in 0..nrep {
             let mut gi = gs.clone();
             let shift = [3.0, -3.0, 0.5, -1.25][(i + ci) % 4];
-            let (q, _) = gen_generic(&mut gi, nvars, shift, g.next());
+            let (q, terms) = gen_generic(&mut gi, nvars, shift, g.next());
             let beta = [0.5, 1.0, 2.0, 4.0][i % 4];
-            offs0.push(q.get_offset());
-            tc.add_qmc_stepper(q, beta).unwrap();
+            offs0.push(doc_generic_offset(&terms));
+            caps.push(q.get_offset());
+            if let Err(m) = check_stored(&q, &terms) {
+                setup = Err(format!("slot {}: {}", i, m));
+            }
+            if let Err(m) = tc.add_qmc_stepper(q, beta) {
+                // identical couplings, only the diagonal shift differs: the documented stored matrices are equal
+                return Err(format!(
+                    "generic replicas with identical shifted matrices refused by add_qmc_stepper ({}); {}",
+                    m,
+                    setup.err().unwrap_or_default()
+                ));
+            }
             betas.push(beta);
         }
         tc.timesteps(g.range(0, 8) as usize);
         let mut tc2 = tc.clone();
         let r = if parallel { tc.parallel_timesteps_sample(t, s, f) } else { tc.timesteps_sample(t, s, f) };
-        // the slots' offsets as captured at construction
+        // the slots' documented offsets
         let offs: Vec<f64> = offs0.clone();
         let mut nseq: Vec<Vec<usize>> = vec![vec![]; nrep];
         let mut want: Vec<Vec<Vec<bool>>> = vec![vec![]; nrep];
@@ -1039,16 +1131,22 @@ fn mode_generic(a: &Args) {
             let doc = nseq[i].iter().map(|n| -(*n as f64 / betas[i]) + offs[i]).sum::<f64>() / t as f64;
             if !close(r[i].1, doc) {
                 oracle = Err(format!(
-                    "generic replicas: slot {} (offset {}) energy {} but the per-step average of -n/beta + get_offset() is {}",
+                    "generic replicas: slot {} (documented offset {}) energy {} but the per-step average of -n/beta + offset is {}",
                     i, offs[i], r[i].1, doc
                 ));
             }
             for (which, c) in [("after the run", &tc), ("in the reference loop", &tc2)] {
                 let o = c.graph_ref()[i].0.get_offset();
-                if o != offs[i] {
-                    oracle = Err(format!("generic replicas: slot {}: get_offset() is {} {} but was {} at construction", i, o, which, offs[i]));
+                if o != caps[i] {
+                    oracle = Err(format!("generic replicas: slot {}: get_offset() is {} {} but was {} at construction", i, o, which, caps[i]));
                 }
             }
+            if !close(caps[i], offs[i]) {
+                oracle = Err(format!("generic replicas: slot {}: get_offset() = {} but the registered interactions give {}", i, caps[i], offs[i]));
+            }
+        }
+        if let Err(m) = &setup {
+            oracle = Err(format!("generic replicas: {}", m));
         }
         let input = format!(
             "generict {} {} {} {} {} {} {}",
@@ -1063,6 +1161,13 @@ fn mode_generic(a: &Args) {
         let out = r.iter().map(|x| format!("{} {}", x.0.len(), fl(x.1))).collect::<Vec<_>>().join(" ");
         emit(true, &input, &out, Some(oracle));
         stat("generic_swaps_accepted", tc.get_total_swaps());
+        Ok(())
+        });
+        match res {
+            Ok(Ok(())) => {}
+            Ok(Err(m)) => emit(false, &label, "refused", Some(Err(m))),
+            Err(p) => emit(false, &label, "panic", Some(Err(format!("generic tempering scenario panicked: {}", p)))),
+        }
     }
     stat("generic_offset_positive", npos);
     stat("generic_offset_negative", nneg);
